@@ -170,7 +170,9 @@ class C16(AAdapterProp):
                   "untouched filled prefix, how the allowance moves, which capacity the inner stream is offered, Pending and errors passed on — "
                   "proved of the crate's take and of tokio's Take); stream level: c16_chain_stream (a chain of any two streams that either answer "
                   "Pending leaving the filled part alone or append a prefix of a fixed remaining sequence is again such a stream, of first ++ "
-                  "second: all of first, then all of second, under every Pending pattern and for every ReadBuf incl. zero capacity); c16_pinned_refuted keeps the zero-capacity counterexample of the pre-fix "
+                  "second: all of first, then all of second, under every Pending pattern and for every ReadBuf incl. zero capacity) and c16_take_stream "
+                  "(over any inner stream that is observably a capacity-determined prefix source, a poll is Pending with nothing visible changed, or "
+                  "appends a prefix of the first `allowance` remaining bytes and charges exactly that many; instance proved); c16_pinned_refuted keeps the zero-capacity counterexample of the pre-fix "
                   "chain. GenEq/SrcC16.v restates them about the regenerated poll_read functions. Stated over the modelled ReadBuf.")
     nontrivial_rule = ("scripted inner streams (chunks, spurious empty reads, errors, panics, EOF) x every subset of polls answered Pending for "
                        "short scripts x ReadBufs {empty, zero capacity, pre-filled, pre-filled + zero capacity, uninit} x limits {0, below, equal, "
